@@ -159,7 +159,8 @@ def model(r, M=False):
         # views whose NAMES other models reuse for other elements: a row slice ("A[0,:]" whatever the columns) and a reversed vector
         e4 = A[0, 1:3].sum() * 2 + np.array([1.0, 2.0, 3.0]) @ v[::-1] + A[1, 0:2].dot(A[1, 1:3])
         wM = VectorVariable("w", 3)
-        return dict(x=x, y=y, v=v, p=p, A=A, e1=e1, e2=e2, e3=e3, e4=e4, w_a=wM, w_b=wM)
+        e6 = p * x * y + x * x + y * y         # the mixed SECOND derivative is the bare Parameter
+        return dict(x=x, y=y, v=v, p=p, A=A, e1=e1, e2=e2, e3=e3, e4=e4, e6=e6, w_a=wM, w_b=wM)
     x = Variable("x", lb=r.choice([None, -5.0, 1.0]), ub=r.choice([None, 9.0]))
     y = Variable("y")
     v = VectorVariable("x", r.choice([2, 3, 3, 4]))
@@ -175,7 +176,8 @@ def model(r, M=False):
                    A[0, :].sum() + w.sum()])
     # other models may DECLARE a vector twice (two objects, equal names) and mix the two declarations
     w_a, w_b = VectorVariable("w", 3), VectorVariable("w", 3)
-    return dict(x=x, y=y, v=v, p=p, A=A, e1=e1, e2=e2, e3=e3, e4=e4, w_a=w_a, w_b=(w_b if r.random() < 0.7 else w_a))
+    e6 = r.choice([p * x * y + x * x + y * y, x * y * p + 2 * x * x + y * y, p * x * y + x ** 2 + y ** 2, p * (x * y) + x * x + y * y])
+    return dict(x=x, y=y, v=v, p=p, A=A, e1=e1, e2=e2, e3=e3, e4=e4, e6=e6, w_a=w_a, w_b=(w_b if r.random() < 0.7 else w_a))
 
 
 def entries(Md, solve=True):
@@ -199,6 +201,8 @@ def entries(Md, solve=True):
                              [float(t) for t in AD.compile_jacobian([Md["e3"], Md["e1"]], V)(pt).reshape(-1)]
     out["hess"] = [float(t) for t in AD.compile_hessian(Md["e3"], V2)(pt2).reshape(-1)] + \
                   [float(t) for t in AD.compile_hessian(Md["e1"], V)(pt).reshape(-1)]
+    out["hess_param_entry"] = [float(t) for t in AD.compile_hessian(Md["e6"], V2)(pt2).reshape(-1)] + \
+                              [float(t) for t in AD.compile_hessian(Md["e6"], [y, x])(pt2).reshape(-1)]
     out["dparam"] = float(C.compile_expression(AD.gradient(p * x, x), V)(pt))
     A = Md["A"]
     V4 = [A[i, j] for i in range(2) for j in range(3)] + [t for t in Md["e4"].get_variables() if not t.name.startswith("A[")]
@@ -223,6 +227,10 @@ def entries(Md, solve=True):
         out["nlp"] = [s1.status.value, s1.objective_value, sorted(s1.values.items())]
         out["lp"] = [s2.status.value, s2.objective_value, sorted(s2.values.items())]
         out["nlp_param"] = [s3.status.value, s3.objective_value, sorted(s3.values.items())]
+        with warnings.catch_warnings():
+            warnings.simplefilter("ignore")
+            s4 = Problem().minimize(Md["e6"]).subject_to(x + y >= 1).solve(method="trust-constr")
+        out["nlp_param_hessian"] = [s4.status.value, round(s4.objective_value, 6), [(k_, round(v_, 5)) for k_, v_ in sorted(s4.values.items())]]
     return out
 
 
